@@ -166,7 +166,7 @@ var c07Classes = []string{"zeros", "period-2", "counter", "lcg-random", "bitpack
 // bytes, 15/16 literal-length escape, 255/256 length bytes), around gpfile's 4 KiB
 // bufio and 8 KiB scratch sizes, the 64 KiB lz4 window, the 128 KiB zstd block,
 // and "several hundred KiB".
-var c07LengthsQuick = []int{0, 1, 3, 8, 13, 16, 64, 255, 256, 4096, 4097, 8192, 8193, 65535, 65536, 65537}
+var c07LengthsQuick = []int{0, 1, 3, 8, 13, 15, 16, 64, 255, 256, 4096, 4097, 8192, 8193, 65535, 65536, 65537}
 var c07LengthsThorough = []int{0, 1, 2, 3, 7, 8, 12, 13, 15, 16, 63, 64, 65, 255, 256, 4095, 4096, 4097, 8191, 8192, 8193, 65535, 65536, 65537, 131071, 131072, 131073, 300000}
 
 func c07Lengths(thorough bool) []int {
